@@ -201,9 +201,171 @@ pub enum Case {
     /// asking first for a cluster nobody has decoded yet: `tasks` readers over `pool_threads`
     /// workers, all of which may be waiting for a background decoder at the same time
     S3 { comp: Comp, pool_threads: u8, tasks: u8, seed: u32 },
+    /// the directory side of an opened container: `threads` threads, released together, make the
+    /// FIRST access to the entry stores and value stores of a freshly opened container (the store
+    /// caches are filled under their eyes) and read entries; `rounds` fresh containers per case
+    S4 { threads: u8, rounds: u8, big: bool, seed: u32 },
+    /// hammer: `threads` threads ask one opened (uncompressed, so nothing slows them down) pack for
+    /// tiny contents `kilo_reads` thousand times each, short runs inside one cluster then a jump
+    /// to another: windows of a few instructions in the cluster lookup are met by sheer frequency
+    S5 { threads: u8, kilo_reads: u8, comp: Comp, seed: u32 },
 }
 
 pub struct C07;
+
+/// S4: containers built once per worker process (a small directory with an indexed value store
+/// and references; a big one with 3000 entries and a plain value store of tens of KiB).
+fn s4_container(ctx: &Ctx, big: bool) -> Result<std::sync::Arc<(std::path::PathBuf, crate::container::ContainerModel)>, Failure> {
+    static BUILT: Mutex<Vec<Option<std::sync::Arc<(std::path::PathBuf, crate::container::ContainerModel)>>>> = Mutex::new(vec![]);
+    let mut g = BUILT.lock().unwrap();
+    if g.is_empty() {
+        g.push(None);
+        g.push(None);
+    }
+    if let Some(b) = &g[big as usize] {
+        return Ok(Arc::clone(b));
+    }
+    let dir = ctx.path(&format!("s4-{}", if big { "big" } else { "small" }));
+    let _ = std::fs::remove_dir_all(&dir);
+    std::fs::create_dir_all(&dir).unwrap();
+    let spec = crate::faults::base_spec(if big { 5 } else { 1 }, crate::container::Packaging::OneFile, Comp::None, 4242);
+    let built = crate::container::build(&spec, &dir, "a.jbk", None)?;
+    let b = Arc::new((built.main_path.clone(), built.model));
+    g[big as usize] = Some(Arc::clone(&b));
+    Ok(b)
+}
+
+fn run_s5(ctx: &Ctx, threads: u8, kilo_reads: u8, comp: Comp, seed: u32, info: &mut CaseInfo) -> Result<(), Failure> {
+    let sp = s1_pack(ctx, comp, 48)?;
+    let reader: jbk::Reader = jbk::FileSource::open(&sp.path).unwrap().into();
+    let pack = match jbk::reader::ContentPack::new(reader) {
+        Ok(p) => Arc::new(p),
+        Err(e) => fail!("open-error", "{e}"),
+    };
+    // two tiny targets in each of 24 clusters, expected bytes computed once
+    let targets: Arc<Vec<(u32, Vec<u8>)>> = Arc::new(
+        (0..48u32)
+            .map(|k| {
+                let cl = (k / 2) * 2 + (seed % 2);
+                let idx = cl * BLOBS_PER_CLUSTER + (seed.wrapping_mul(31).wrapping_add(k * 97)) % BLOBS_PER_CLUSTER;
+                (idx, blob_bytes(idx))
+            })
+            .collect(),
+    );
+    let nthreads = (threads as usize).clamp(2, 16);
+    let reads = kilo_reads as u64 * 1000;
+    let barrier = Arc::new(std::sync::Barrier::new(nthreads));
+    let handles: Vec<_> = (0..nthreads)
+        .map(|t| {
+            let pack = Arc::clone(&pack);
+            let targets = Arc::clone(&targets);
+            let barrier = Arc::clone(&barrier);
+            std::thread::spawn(move || -> Result<(), Failure> {
+                let mut x = splitmix(seed as u64 ^ ((t as u64) << 40)) | 1;
+                let mut k = t % targets.len();
+                let mut buf = Vec::with_capacity(64);
+                barrier.wait();
+                let mut n = 0u64;
+                while n < reads {
+                    x ^= x << 13;
+                    x ^= x >> 7;
+                    x ^= x << 17;
+                    // a run of 1..=3 reads of one target (and of its neighbour in the same cluster), then a jump
+                    let run = 1 + (x % 3);
+                    for r in 0..run {
+                        let (idx, e) = &targets[(k ^ (r as usize & 1)) % targets.len()];
+                        let region = match pack.get_content(jbk::ContentIdx::from(*idx)) {
+                            Ok(Some(r)) => r,
+                            Ok(None) => fail!("read-error", "S5 thread {t}: content {idx} does not exist"),
+                            Err(err) => fail!("read-error", "S5 thread {t}: content {idx}: {err}"),
+                        };
+                        ensure!(region.size().into_u64() == e.len() as u64, "content-size", "S5 thread {t}: content {idx} has size {} instead of {}", region.size().into_u64(), e.len());
+                        buf.clear();
+                        if let Err(err) = region.stream().read_to_end(&mut buf) {
+                            fail!("read-error", "S5 thread {t}: content {idx}: {err}");
+                        }
+                        ensure!(&buf == e, "wrong-bytes", "S5 thread {t}: content {idx} (cluster {}) returns the bytes of another content", idx / BLOBS_PER_CLUSTER);
+                        n += 1;
+                    }
+                    k = (x >> 20) as usize % targets.len();
+                }
+                Ok(())
+            })
+        })
+        .collect();
+    let mut first_err = None;
+    for (t, h) in handles.into_iter().enumerate() {
+        match h.join() {
+            Ok(Ok(())) => {}
+            Ok(Err(f)) => first_err = first_err.or(Some(f)),
+            Err(_) => first_err = first_err.or(Some(Failure::new("reader-panic", format!("S5: reader thread {t} panicked: {}", take_panic().unwrap_or_default())))),
+        }
+    }
+    if let Some(f) = first_err {
+        return Err(f);
+    }
+    info.evals = reads * nthreads as u64;
+    Ok(())
+}
+
+fn run_s4(ctx: &Ctx, threads: u8, rounds: u8, big: bool, seed: u32, info: &mut CaseInfo) -> Result<(), Failure> {
+    let b = s4_container(ctx, big)?;
+    let nthreads = (threads as usize).clamp(2, 16);
+    let mut evals = 0u64;
+    for round in 0..rounds.max(1) {
+        let c = match jbk::reader::Container::new(&b.0) {
+            Ok(c) => Arc::new(c),
+            Err(e) => fail!("open-error", "S4: Container::new: {e}"),
+        };
+        let barrier = Arc::new(std::sync::Barrier::new(nthreads));
+        let handles: Vec<_> = (0..nthreads)
+            .map(|t| {
+                let c = Arc::clone(&c);
+                let b = Arc::clone(&b);
+                let barrier = Arc::clone(&barrier);
+                std::thread::spawn(move || -> Result<u64, Failure> {
+                    let mut n = 0u64;
+                    barrier.wait();
+                    for (si, sm) in b.1.dir.stores.iter().enumerate() {
+                        for (wname, off, cnt) in &sm.windows {
+                            // the container's own (shared) storages: their caches are filled by whoever comes first
+                            let oi = match crate::dirgen::open_index(c.get_directory_pack(), &|ix| ix.get_store(c.get_entry_storage()), c.get_value_storage(), wname) {
+                                Ok(o) => o,
+                                Err(e) => fail!("read-error", "S4 round {round} thread {t}: index {wname} of store {si}: {e}"),
+                            };
+                            ensure!(oi.count() == *cnt, "wrong-bytes", "S4 round {round} thread {t}: index {wname} exposes {} entries, declared {cnt}", oi.count());
+                            let step = (*cnt / 40).max(1);
+                            for i in ((t + seed as usize) % step..*cnt).step_by(step) {
+                                let got = match oi.entry(i as u32) {
+                                    Ok(Some(g)) => g,
+                                    Ok(None) => fail!("read-error", "S4 round {round} thread {t}: index {wname}: entry {i} of {cnt} is None"),
+                                    Err(e) => fail!("read-error", "S4 round {round} thread {t}: index {wname}: {e}"),
+                                };
+                                let exp = sm.expected_at(off + i);
+                                ensure!(got == exp, "wrong-bytes", "S4 round {round} thread {t}: index {wname} entry {i}: read {got:?}, written {exp:?}");
+                                n += 1;
+                            }
+                        }
+                    }
+                    Ok(n)
+                })
+            })
+            .collect();
+        let mut first_err = None;
+        for (t, h) in handles.into_iter().enumerate() {
+            match h.join() {
+                Ok(Ok(n)) => evals += n,
+                Ok(Err(f)) => first_err = first_err.or(Some(f)),
+                Err(_) => first_err = first_err.or(Some(Failure::new("reader-panic", format!("S4 round {round}: reader thread {t} panicked: {}", take_panic().unwrap_or_default())))),
+            }
+        }
+        if let Some(f) = first_err {
+            return Err(f);
+        }
+    }
+    info.evals = evals.max(1);
+    Ok(())
+}
 
 fn op_strategy() -> BoxedStrategy<Op> {
     let kind = prop_oneof![
@@ -472,7 +634,7 @@ impl Property for C07 {
     const ID: &'static str = "C07";
 
     fn rule() -> String {
-        "(S1) proptest-generated concurrent read programs: 2-16 reader threads over one opened content pack holding 48-56 lz4/lzma/zstd clusters of 4095 small blobs (more clusters than the 40 cache slots and the 8 pool threads; 5-25 decode chunks per cluster), op lists of whole reads, get_slice, streamed reads with small buffers and nested cuts; patterns {independent lists, every thread the same list, sweeps over all clusters forcing evictions while regions are held}; a seeded perturbation plan injects yields / 20us / 200us / 2ms sleeps at the cfg(jubako_verif) schedule points (before/after length publication, reader wake-up and slice, cluster cache lock, plain-reader construction). Oracle: every read returns exactly the model bytes (derived from the content index), every thread finishes. (S2) bounded exhaustive: the real SeekableDecoder over a harness-owned producer that releases chunk k only when told; every interleaving of {release chunk 1..3 in order} with {start reader r} for 2-3 readers (140 schedules for 3+3) x range triples drawn from the set of ranges whose ends sit on the chunk boundaries +-1, through get_slice and through stream reads; a step only ends when its publication / the reader's entry into the wait was observed through the hooks. Oracle: exact bytes; after the last release every reader returns within 5 s (else lost wake-up). Non-trivial = S1: at least 2 threads and a plan strength > 0 touching >40 clusters or the same contents; S2: a schedule in which at least one reader had to wait for a publication; distinct by (pattern, threads, compression, plan) / (ranges, schedule). (S3) readers that are tasks of a rayon thread pool (1-6 threads, or rayon's global pool), at least as many readers as pool threads, each first asking for a cluster nobody has decoded yet; the case itself has no timeout: a pool whose workers all wait for a decoder that cannot run is reported by the engine's blocked-forever criterion.".into()
+        "(S1) proptest-generated concurrent read programs: 2-16 reader threads over one opened content pack holding 48-56 lz4/lzma/zstd clusters of 4095 small blobs (more clusters than the 40 cache slots and the 8 pool threads; 5-25 decode chunks per cluster), op lists of whole reads, get_slice, streamed reads with small buffers and nested cuts; patterns {independent lists, every thread the same list, sweeps over all clusters forcing evictions while regions are held}; a seeded perturbation plan injects yields / 20us / 200us / 2ms sleeps at the cfg(jubako_verif) schedule points (before/after length publication, reader wake-up and slice, cluster cache lock, plain-reader construction). Oracle: every read returns exactly the model bytes (derived from the content index), every thread finishes. (S2) bounded exhaustive: the real SeekableDecoder over a harness-owned producer that releases chunk k only when told; every interleaving of {release chunk 1..3 in order} with {start reader r} for 2-3 readers (140 schedules for 3+3) x range triples drawn from the set of ranges whose ends sit on the chunk boundaries +-1, through get_slice and through stream reads; a step only ends when its publication / the reader's entry into the wait was observed through the hooks. Oracle: exact bytes; after the last release every reader returns within 5 s (else lost wake-up). Non-trivial = S1: at least 2 threads and a plan strength > 0 touching >40 clusters or the same contents; S2: a schedule in which at least one reader had to wait for a publication; distinct by (pattern, threads, compression, plan) / (ranges, schedule). (S3) readers that are tasks of a rayon thread pool (1-6 threads, or rayon's global pool), at least as many readers as pool threads, each first asking for a cluster nobody has decoded yet; the case itself has no timeout: a pool whose workers all wait for a decoder that cannot run is reported by the engine's blocked-forever criterion. S4 (directory side): 2..16 threads, released together by a barrier, make the first access to the entry stores and value stores of a freshly opened container through its shared storages (the store caches are filled while the others ask) and read a spread of entries, compared with the model; 6 fixed cases of 25 fresh containers each plus generated ones. S5 (hammer): 2..16 threads ask one opened pack for tiny contents 10 000..60 000 times each, runs of 1-3 reads inside a cluster then a jump to another of 24 clusters, exact bytes compared every time: windows of a few instructions in the cluster lookup are met by frequency, not by injected delays (4 fixed cases of 60 000 reads per thread plus generated ones).".into()
     }
 
     fn assumptions() -> Vec<String> {
@@ -534,11 +696,20 @@ impl Property for C07 {
                 plan_seed,
                 strength,
             });
-        prop_oneof![5 => s1, 1 => s3].boxed()
+        let s4 = (prop_oneof![Just(2u8), Just(4u8), Just(8u8), 2u8..=12], 2u8..=6, any::<bool>(), any::<u32>()).prop_map(|(threads, rounds, big, seed)| Case::S4 { threads, rounds, big, seed });
+        let s5 = (prop_oneof![Just(2u8), Just(4u8), Just(8u8), 2u8..=12], 10u8..=60, any::<u32>()).prop_map(|(threads, kilo_reads, seed)| Case::S5 { threads, kilo_reads, comp: Comp::None, seed });
+        prop_oneof![10 => s1, 2 => s3, 1 => s4, 1 => s5].boxed()
     }
 
     fn fixed_cases(tier: Tier) -> Vec<Case> {
         let mut out = vec![];
+        // S4: 25 freshly opened containers per case, 4..16 threads released together on their stores
+        for (threads, comp) in [(8u8, Comp::None), (3, Comp::None), (16, Comp::None), (8, Comp::Zstd(3))] {
+            out.push(Case::S5 { threads, kilo_reads: 60, comp, seed: 7 + threads as u32 });
+        }
+        for (threads, big) in [(8u8, true), (16, true), (4, true), (4, false), (8, false), (12, false)] {
+            out.push(Case::S4 { threads, rounds: 25, big, seed: threads as u32 });
+        }
         // 3 chunks (last one partial), 3 readers: all 140 schedules x sampled range triples
         let total = 2 * CHUNK as u32 + 1000;
         let ranges = s2_ranges(total);
@@ -585,7 +756,7 @@ impl Property for C07 {
     }
 
     fn required_classes(_tier: Tier) -> Vec<&'static str> {
-        vec!["S1", "S2", "S3:readers-are-rayon-workers", "S3:own-pool", "reader-waited-for-publication", "pattern:Sweep", "pattern:Same", "threads>=8", "comp:lz4", "comp:lzma", "comp:zstd", "comp:none", "touched>40-clusters"]
+        vec!["S1", "S2", "S5:hammer", "S4:concurrent-first-access-to-directory-stores", "S3:readers-are-rayon-workers", "S3:own-pool", "reader-waited-for-publication", "pattern:Sweep", "pattern:Same", "threads>=8", "comp:lz4", "comp:lzma", "comp:zstd", "comp:none", "touched>40-clusters"]
     }
 
     fn max_shrink_iters() -> u32 {
@@ -634,6 +805,20 @@ impl Property for C07 {
                 info.evals = 2 * ntasks as u64;
                 info.nontrivial = ntasks >= (*pool_threads).max(1) as u32;
                 info.key = hash_str(&format!("S3|{comp:?}|{pool_threads}|{tasks}|{}", seed % 64));
+                Ok(info)
+            }
+            Case::S5 { threads, kilo_reads, comp, seed } => {
+                info.class("S5:hammer");
+                run_s5(ctx, *threads, *kilo_reads, *comp, *seed, &mut info)?;
+                info.nontrivial = true;
+                info.key = hash_str(&format!("S5|{threads}|{kilo_reads}|{comp:?}|{}", seed % 16));
+                Ok(info)
+            }
+            Case::S4 { threads, rounds, big, seed } => {
+                info.class("S4:concurrent-first-access-to-directory-stores");
+                run_s4(ctx, *threads, *rounds, *big, *seed, &mut info)?;
+                info.nontrivial = true;
+                info.key = hash_str(&format!("S4|{threads}|{rounds}|{big}|{}", seed % 16));
                 Ok(info)
             }
             Case::S1 { comp, threads, pattern, ops, plan_seed, strength } => {
